@@ -21,6 +21,7 @@ func init() {
 		Explanation: "C17/decision enumerates (SmartCardAuth, TokenAuth) x consistent (caps&cl==0, cl==0) valuations; under each, conditional constant propagation follows the unique feasible path of matchAuth and reads the returned (caps, err==nil). C17/caps-bits checks the constants. C17/echo follows the success response's arguments. C17/request-layout checks the order, widths and destinations of the binary.Read calls in handshakeRequest.",
 		Assumptions: []string{"uint16 comparisons with 0 are the only way the function inspects its operands (checked: unrecognised conditions are undecided)"},
 		Rules: []RuleDef{
+			{"C17/buffer-ownership", "the bytes a client receives are the bytes built for it: a packet is assembled and handed on in storage of the call, no package-level buffer or free list that the returned packet still aliases", func(c *Ctx) { packetBuffersPrivate(c, "C17/buffer-ownership") }},
 			{"C17/decision", "matchAuth accepts iff (caps==0 && cl==0) || caps&cl!=0 and returns exactly the enabled bits, for all settings and all valuations", c17Decision},
 			{"C17/caps-bits", "HTTP_EXTENDED_AUTH_SC = 0x1, HTTP_EXTENDED_AUTH_PAA = 0x2 as in MS-TSGU", c17CapsBits},
 			{"C17/echo", "success: response carries the client's version bytes and matchAuth's caps from the same packet; mismatch: 0x800759E9 and the tunnel ends", c17Echo},
@@ -31,7 +32,9 @@ func init() {
 			{"C17/response-sent", "Tunnel.Write hands the packet to the transport before it returns, so the refusal is on the wire before the tunnel is closed", func(c *Ctx) { tunnelWriteSync(c, "C17/response-sent") }},
 			{"C17/response-fields", "handshakeResponse puts each parameter in its own field: status, major then minor version byte, server version 0, capability word", c17ResponseFields},
 			{"C17/request-layout", "handshakeRequest reads u8,u8,u16,u16 little-endian into major, minor, version, extAuth", c17RequestLayout},
-			{"C17/config-tags", "the configuration fields this property depends on are read from the documented keys: koanf tag = lower-cased field name", func(c *Ctx) { configTags(c, "C17/config-tags", map[string][]string{"Configuration": {"Caps"}, "RDGCapsConfig": {"SmartCardAuth", "TokenAuth"}}) }},
+			{"C17/config-tags", "the configuration fields this property depends on are read from the documented keys: koanf tag = lower-cased field name", func(c *Ctx) {
+				configTags(c, "C17/config-tags", map[string][]string{"Configuration": {"Caps"}, "RDGCapsConfig": {"SmartCardAuth", "TokenAuth"}})
+			}},
 		},
 	})
 }
